@@ -18,7 +18,9 @@ T_Pc == /\ IsEv("simple_pc")
         /\ ctx' = E /\ UNCHANGED niter
 
 RawOk == "ok" \in DOMAIN ctx.raw
-Raw == ctx.raw.ok
+RawErr == "err" \in DOMAIN ctx.raw
+\* the points the raw iterator delivered (all of them, or those before its failure)
+Raw == IF RawOk THEN ctx.raw.ok ELSE ctx.raw.got
 AnyBad == \E k \in 1..Len(Raw) : BadState(ctx.proto, Raw[k])
 FirstBad == CHOOSE k \in 1..Len(Raw) : BadState(ctx.proto, Raw[k]) /\ \A j \in 1..(k - 1) : ~BadState(ctx.proto, Raw[j])
 PoseKnown == ctx.has_transform = 0 \/ IsSome(ctx.pose)
@@ -58,6 +60,12 @@ T_Iter ==
               /\ ("err" \in DOMAIN E.res) =>
                    /\ ChkP(Len(E.res.got) < FirstBad, {"C05"}, "points-yielded-past-an-invalid-state")
                    /\ \A k \in 1..Len(E.res.got) : k < FirstBad => ChkP(PtOk(k, E.res.got[k]), {"C05", "C13"}, "point-is-not-the-documented-view-of-the-raw-values")
+    \* where the raw iterator fails the simple iterator fails too, after the same points
+    /\ (RawErr /\ ~("panic" \in DOMAIN E.res) /\ ~AnyBad) =>
+         /\ ChkP("err" \in DOMAIN E.res, {"C05"}, "simple-iterator-succeeds-where-the-raw-iterator-fails")
+         /\ ("err" \in DOMAIN E.res) =>
+              /\ ChkP(Len(E.res.got) = Len(Raw), {"C05"}, "simple-iterator-yields-another-number-of-points-before-the-common-failure")
+              /\ Len(E.res.got) = Len(Raw) => \A k \in 1..Len(Raw) : ChkP(PtOk(k, E.res.got[k]), {"C05", "C13"}, "point-is-not-the-documented-view-of-the-raw-values")
     /\ niter' = niter + 1 /\ UNCHANGED ctx
 
 TNext == T_Reset \/ T_NoFile \/ T_Pc \/ T_Iter
